@@ -33,7 +33,7 @@ def setLut (f : Feat) (d : DState) (r : Option Refresh) : List Act :=
 
 def init (f : Feat) (d : DState) : List Act :=
   [.reset 10000 10000] ++
-  cmdData Command.DriverOutputControl [u8 HEIGHT, shr8 HEIGHT 8, 0x00] ++
+  cmdData Command.DriverOutputControl [u8 (HEIGHT - 1), shr8 (HEIGHT - 1) 8, 0x00] ++
   cmdData Command.BoosterSoftStartControl [0xD7, 0xD6, 0x9D] ++
   cmdData Command.WriteVcomRegister [0xA8] ++
   cmdData Command.SetDummyLinePeriod [0x1A] ++
